@@ -87,10 +87,14 @@ def n_final(reaction_name: str) -> int:
     return len(zoo.REACTIONS[reaction_name]["final_state"])
 
 
+QUICK_REACTIONS = ["jpsi_gamma_pi0_pi0", "jpsi_pi0_pip_pim", "etac_lambda_lambdabar", "jpsi_p_pbar", "lambdac_p_k_pi", "d1_k_k_k0", "jpsi_sigmabar_sigma",
+                   "jpsi_k0_sigma_pbar_N", "jpsi_kk_pipi", "d0_k_3pi_cascade", "jpsi_k0_sigma_pbar_partial"]
+
+
 def config_space(tier: str, reactions: list[str] | None = None) -> list[Config]:
     """quick: a covering subset (each option value appears with each reaction); thorough: the full product."""
     out: list[Config] = []
-    names = reactions or list(zoo.REACTIONS)
+    names = reactions or [n for n in zoo.REACTIONS if tier == "thorough" or n in QUICK_REACTIONS]
     for nm in names:
         aligns = ["none", "axis"] + (["dpd1", "dpd2", "dpd3"] if n_final(nm) == 3 else [])
         forms = ["helicity", "canonical-helicity"]
